@@ -134,7 +134,9 @@ const (
 )
 
 // zzLayoutModule: storage buffer `g: S` with
-//   struct S { a: f32 @0, m: M @off1, c: f32 @off2 }  (offsets symbolic)
+//
+//	struct S { a: f32 @0, m: M @off1, c: f32 @off2 }  (offsets symbolic)
+//
 // where M is mat3x3<f32>, array<mat3x3,2>, array<array<mat3x3,2>,2> or array<vec4<f32>,3>
 // (strides symbolic), bound at (@group G, @binding B) with symbolic numbers, and a compute entry
 // point with symbolic workgroup size that stores to g.a.
@@ -151,10 +153,10 @@ func zzLayoutModule() (m *ir.Module, shape int, off1, off2, span, stride1, strid
 	two, three := uint32(2), uint32(3)
 	m = &ir.Module{Types: []ir.Type{
 		{Inner: f32}, // 0
-		{Inner: ir.MatrixType{Columns: 3, Rows: 3, Scalar: f32}},                        // 1
-		{Inner: ir.ArrayType{Base: 1, Size: ir.ArraySize{Constant: &two}, Stride: stride1}}, // 2
-		{Inner: ir.ArrayType{Base: 2, Size: ir.ArraySize{Constant: &two}, Stride: stride2}}, // 3
-		{Inner: ir.VectorType{Size: 4, Scalar: f32}},                                     // 4
+		{Inner: ir.MatrixType{Columns: 3, Rows: 3, Scalar: f32}},                              // 1
+		{Inner: ir.ArrayType{Base: 1, Size: ir.ArraySize{Constant: &two}, Stride: stride1}},   // 2
+		{Inner: ir.ArrayType{Base: 2, Size: ir.ArraySize{Constant: &two}, Stride: stride2}},   // 3
+		{Inner: ir.VectorType{Size: 4, Scalar: f32}},                                          // 4
 		{Inner: ir.ArrayType{Base: 4, Size: ir.ArraySize{Constant: &three}, Stride: stride1}}, // 5
 	}}
 	memberType := []ir.TypeHandle{1, 2, 3, 5}[shape]
@@ -289,10 +291,10 @@ type zzVal struct {
 }
 
 type zzSPV struct {
-	insts   []zzInst
-	vecLen  map[uint32]int    // vector type id -> count (scalars: absent)
-	consts  map[uint32]zzVal  // constant id -> value
-	boolTy  map[uint32]bool   // type id is bool or vector of bool
+	insts  []zzInst
+	vecLen map[uint32]int   // vector type id -> count (scalars: absent)
+	consts map[uint32]zzVal // constant id -> value
+	boolTy map[uint32]bool  // type id is bool or vector of bool
 }
 
 func zzLoadSPV(out []byte) (*zzSPV, bool) {
